@@ -38,6 +38,21 @@ fn f(d: Decimal) -> f64 {
     d.to_f64().unwrap_or(f64::NAN)
 }
 
+/// ln of a positive decimal in double precision, without losing an argument that differs from 1 by less
+/// than a double can show
+fn ln_near(x: Decimal) -> f64 {
+    let d = x - Decimal::ONE;
+    if d.abs() < Decimal::new(1, 3) {
+        f(d).ln_1p()
+    } else {
+        f(x).ln()
+    }
+}
+
+fn too_close_to_one(x: Decimal) -> bool {
+    (x - Decimal::ONE).abs() <= Decimal::new(1, 18)
+}
+
 fn un(x: R, g: impl Fn(Decimal, Q) -> R) -> R {
     match x {
         RV::Val(v, q) => g(v, q),
@@ -230,13 +245,25 @@ fn pow(a: Decimal, b: Decimal, q: Q) -> R {
             // the parity of the exponent is lost in the double
             return RV::Unspec("U3: negative base with an exponent beyond 2^53");
         }
-        return from_f64(q, x.powf(y));
+        let t = y * ln_near(a.abs());
+        if t.abs() > 1e5 {
+            return RV::Unspec("U3: power too ill-conditioned for the double-precision oracle");
+        }
+        let mag = if (a.abs() - Decimal::ONE).abs() < Decimal::new(1, 3) { t.exp() } else { x.abs().powf(y) };
+        let odd = !(b % Decimal::TWO).is_zero();
+        return from_f64(q, if odd { -mag } else { mag });
     }
-    if (y * x.abs().ln()).abs() > 1e5 {
+    let t = y * ln_near(a);
+    if t.abs() > 1e5 {
         // the double-precision oracle cannot deliver 1e-9 relative here
         return RV::Unspec("U3: power too ill-conditioned for the double-precision oracle");
     }
-    from_f64(q, x.powf(y))
+    if y.abs() > 1e18 {
+        // the exponent multiplies the 1e-28 resolution of the base (or of its logarithm)
+        return RV::Unspec("U3: an exponent beyond 1e18 is ill-conditioned at 28 digits");
+    }
+    // a base that differs from 1 by less than a double can show: through the logarithm
+    from_f64(q, if (a - Decimal::ONE).abs() < Decimal::new(1, 3) { t.exp() } else { x.powf(y) })
 }
 
 pub fn factorial(v: Decimal, q: Q) -> R {
@@ -324,17 +351,21 @@ fn call(fun: Func, args: &[Node], at: Decimal) -> R {
             } else if vs[0] == Decimal::ONE {
                 keep(q, Decimal::ZERO)
             } else {
-                let x = f(vs[0]);
-                from_f64(q, if fun == Ln { x.ln() } else { x.log2() })
+                let l = ln_near(vs[0]);
+                from_f64(q, if fun == Ln { l } else { l / std::f64::consts::LN_2 })
             }
         }
         Log => {
             if vs[0] <= Decimal::ZERO || vs[1] <= Decimal::ZERO || vs[1] == Decimal::ONE {
                 RV::Unspec("U3: log outside its domain")
+            } else if too_close_to_one(vs[1]) || (vs[0] != Decimal::ONE && too_close_to_one(vs[0])) {
+                // ln(1 + d) carries an absolute error of the arithmetic's resolution 1e-28: below |d| = 1e-18
+                // the quotient of logarithms cannot be expected within 1e-9 relative
+                RV::Unspec("U3: logarithm of an argument within 1e-18 of 1 is ill-conditioned at 28 digits")
             } else if vs[0] == Decimal::ONE {
                 keep(q, Decimal::ZERO)
             } else {
-                from_f64(q, f(vs[0]).ln() / f(vs[1]).ln())
+                from_f64(q, ln_near(vs[0]) / ln_near(vs[1]))
             }
         }
         Exp => from_f64(q, f(vs[0]).exp()),
@@ -344,7 +375,15 @@ fn call(fun: Func, args: &[Node], at: Decimal) -> R {
             if vs[1] <= Decimal::ZERO || vs[0].is_zero() {
                 RV::Unspec("U3: root outside the positive reals")
             } else {
-                from_f64(q, f(vs[1]).powf(1.0 / f(vs[0])))
+                // x^(1/n) with the exponent formed at 28 digits, under the conditioning rules of pow
+                match Decimal::ONE.checked_div(vs[0]) {
+                    None => RV::Unspec("U3: 1/n outside the Decimal range"),
+                    Some(e) => match pow(vs[1], e, q) {
+                        RV::Val(v, Q::Tol(t)) if t == 0.0 => RV::Val(v, rel(f(v), 1e-9)),
+                        RV::MustErr(_) => RV::Unspec("U3: root outside the Decimal range"),
+                        other => other,
+                    },
+                }
             }
         }
         LambertW => {
